@@ -428,7 +428,21 @@ def b_sum(ex, args, kwargs, st, sink, node):
     raise Unsupported(f"sum() of {v.ty!r}")
 
 
+def _b_minmax(is_min):
+    def f(ex, args, kwargs, st, sink, node):
+        if kwargs or len(args) < 2 or any(a.ty.kind not in ("int", "bool") for a in args):
+            raise Unsupported("min/max of anything but two or more ints")
+        cur = coerce(args[0], INT).v
+        for a in args[1:]:
+            x = coerce(a, INT).v
+            cur = z3.If(x < cur, x, cur) if is_min else z3.If(x > cur, x, cur)
+        yield st, mk_int(cur)
+    return f
+
+
 EXTERNALS = {
+    "builtins.min": _b_minmax(True),
+    "builtins.max": _b_minmax(False),
     "builtins.sum": b_sum,
     "builtins.set": b_set,
     "struct.pack": struct_pack,
@@ -457,6 +471,24 @@ EXTERNALS = {
 def _loc_of(ex, d, st):
     """Syntactic location of the receiver for write-back."""
     return d.recv.loc
+
+
+def m_seq_extend(ex, d, args, kwargs, st, sink, node):
+    (x,) = args
+    recv = d.recv
+    if x.ty.kind != "seq":
+        raise Unsupported(f"list.extend({x.ty!r})")
+    ty = recv.ty
+    if ty.elem == ANY and x.ty.elem != ANY:
+        if not (z3.is_app(recv.v) and recv.v.decl().kind() == z3.Z3_OP_SEQ_EMPTY):
+            raise Unsupported("extend changes element type of non-empty list")
+        ty, base = x.ty, z3.Empty(x.ty.sorts()[0])
+    else:
+        base = recv.v
+    if x.ty.elem != ty.elem and not (x.ty.elem == ANY and z3.is_app(x.v) and x.v.decl().kind() == z3.Z3_OP_SEQ_EMPTY):
+        raise Unsupported(f"extend of {ty!r} with {x.ty!r}")
+    ex.write_back(st, recv.loc, SV(ty, z3.Concat(base, x.v) if x.ty.elem == ty.elem else base))
+    yield st, NONEV
 
 
 def m_seq_append(ex, d, args, kwargs, st, sink, node):
@@ -678,17 +710,18 @@ def _no_kwargs(name, fn):
     return guarded
 
 
-for _n in ("builtins.set", "struct.pack", "struct.unpack", "struct.calcsize", "builtins.len", "builtins.isinstance", "builtins.int", "builtins.str", "builtins.repr", "builtins.callable", "builtins.bool"):
+for _n in ("builtins.min", "builtins.max", "builtins.set", "struct.pack", "struct.unpack", "struct.calcsize", "builtins.len", "builtins.isinstance", "builtins.int", "builtins.str", "builtins.repr", "builtins.callable", "builtins.bool"):
     EXTERNALS[_n] = _no_kwargs(_n, EXTERNALS[_n])
 
 
 # the number of positional arguments each model understands: a call with more (str.find(sub, start), list.pop(i, ...)) is outside the model
-METHOD_MAX_ARGS = {("seq", "append"): 1, ("seq", "pop"): 1, ("seq", "remove"): 1, ("str", "find"): 1, ("bytes", "find"): 1, ("str", "rfind"): 1, ("bytes", "rfind"): 1, ("str", "startswith"): 1, ("bytes", "startswith"): 1,
+METHOD_MAX_ARGS = {("seq", "extend"): 1, ("seq", "append"): 1, ("seq", "pop"): 1, ("seq", "remove"): 1, ("str", "find"): 1, ("bytes", "find"): 1, ("str", "rfind"): 1, ("bytes", "rfind"): 1, ("str", "startswith"): 1, ("bytes", "startswith"): 1,
                    ("str", "endswith"): 1, ("str", "encode"): 2, ("bytes", "decode"): 2, ("str", "rstrip"): 1, ("bytes", "join"): 1, ("str", "join"): 1, ("map", "get"): 2, ("map", "pop"): 2,
                    ("set", "add"): 1, ("set", "remove"): 1}
 
 METHODS = {
     ("seq", "append"): m_seq_append,
+    ("seq", "extend"): m_seq_extend,
     ("seq", "pop"): m_seq_pop,
     ("seq", "remove"): m_seq_remove,
     ("str", "find"): m_str_find,
